@@ -941,53 +941,68 @@ class LangServer:
         # Test if scope declaration or end statement
         if FRegex.SCOPE_DEF.match(curr_line) or FRegex.END.match(curr_line):
             return None
-        is_member = False
-        try:
-            sub_name, arg_strings, sub_end = get_sub_name(line_prefix)
-            var_stack = get_var_stack(sub_name)
-            is_member = len(var_stack) > 1
-        except (TypeError, AttributeError):
-            return None
-        #
-        curr_scope = file_obj.ast.get_inner_scope(sig_line + 1)
-        # Traverse type tree if necessary
-        if is_member:
-            type_scope = climb_type_tree(var_stack, curr_scope, self.obj_tree)
-            # Set enclosing type as scope
-            if type_scope is None:
-                curr_scope = None
-            else:
-                curr_scope = type_scope
-        sub_name = var_stack[-1]
-        # Find in available scopes
-        var_obj = None
-        if curr_scope is not None:
-            var_obj = find_in_scope(curr_scope, sub_name, self.obj_tree)
-        # Search in global scope
-        if var_obj is None:
-            key = sub_name.lower()
-            if key in self.obj_tree:
-                var_obj = self.obj_tree[key][0]
-            else:
-                for obj in self.intrinsic_funs:
-                    if obj.name.lower() == key:
-                        var_obj = obj
+
+        def find_signature(line_prefix: str):
+            """Signature of the procedure whose argument list `line_prefix` ends in"""
+            is_member = False
+            try:
+                sub_name, arg_strings, sub_end = get_sub_name(line_prefix)
+                var_stack = get_var_stack(sub_name)
+                is_member = len(var_stack) > 1
+            except (TypeError, AttributeError):
+                return None
+            #
+            curr_scope = file_obj.ast.get_inner_scope(sig_line + 1)
+            # Traverse type tree if necessary
+            if is_member:
+                type_scope = climb_type_tree(var_stack, curr_scope, self.obj_tree)
+                # Set enclosing type as scope
+                if type_scope is None:
+                    curr_scope = None
+                else:
+                    curr_scope = type_scope
+            sub_name = var_stack[-1]
+            # Find in available scopes
+            var_obj = None
+            if curr_scope is not None:
+                var_obj = find_in_scope(curr_scope, sub_name, self.obj_tree)
+            # Search in global scope
+            if var_obj is None:
+                key = sub_name.lower()
+                if key in self.obj_tree:
+                    var_obj = self.obj_tree[key][0]
+                else:
+                    for obj in self.intrinsic_funs:
+                        if obj.name.lower() == key:
+                            var_obj = obj
+                            break
+            # Check keywords
+            if (var_obj is None) and (
+                FRegex.INT_STMNT.match(line_prefix[:sub_end]) is not None
+            ):
+                key = sub_name.lower()
+                for candidate in get_intrinsic_keywords(self.statements, self.keywords, 0):
+                    if candidate.name.lower() == key:
+                        var_obj = candidate
                         break
-        # Check keywords
-        if (var_obj is None) and (
-            FRegex.INT_STMNT.match(line_prefix[:sub_end]) is not None
-        ):
-            key = sub_name.lower()
-            for candidate in get_intrinsic_keywords(self.statements, self.keywords, 0):
-                if candidate.name.lower() == key:
-                    var_obj = candidate
-                    break
-        if var_obj is None:
-            return None
-        # Build signature
-        label, doc_str, params = var_obj.get_signature()
-        if label is None:
-            return None
+            if var_obj is None:
+                return None
+            # Build signature
+            label, doc_str, params = var_obj.get_signature()
+            if label is None:
+                return None
+            return label, doc_str, params, arg_strings
+
+        # The innermost parentheses need not be an argument list (array element,
+        # parenthesised expression, unknown name): try the enclosing ones
+        found = find_signature(line_prefix)
+        while found is None:
+            _, sections = get_paren_level(strip_strings(line_prefix, maintain_len=True))
+            if sections[0].start <= 1:
+                return None
+            line_prefix = line_prefix[: sections[0].start - 1]
+            found = find_signature(line_prefix)
+        label, doc_str, params, arg_strings = found
         # Replace placeholder language id with Fortran ID
         params = replace_langid(params)
 
